@@ -360,10 +360,13 @@ class C03(Proto):
 class C04(Proto):
     id = "C04"
     lean_module = "Props.C04"
+    streams = [("C04", "knxdrv", 0.95), ("C17rt", None, 0.05)]
     rule = ("request streams for the real receiver under virtual time: one script of ~900 events (wrap at 256) and random "
             "scripts of 5..65 events: in-sequence requests, repetitions of the previous number (1..5x), skipped ahead +1..+3, "
             "far behind -2..-200, foreign channel, application reads (consumer stalls of arbitrary length: every accepted "
-            "telegram is parked), gateway-initiated reconnects (new channel, expectation restarts), UDP and TCP. Trace "
+            "telegram is parked), gateway-initiated reconnects (new channel, expectation restarts), UDP and TCP. REAL time "
+            "(stream C17rt): waiting / absent / intermittent readers, and 20 000 rounds on one long-lived client in which a "
+            "telegram arrives exactly while the application takes the previous one - none may be left behind. Trace "
             "compared exactly with the model's; monitor recomputes expected acks and deliveries.")
     technique = "Lean 4 proof (case law of handleTunnelReq + induction over request streams of any length) + exact trace correspondence under testing/synctest"
     level_text = ("Theorems: the rule for one request in every state (foreign channel: nothing; expected number: accepted, +1 mod "
@@ -673,10 +676,11 @@ def run_stream(P, tier, seed, budget, workdir, binary, drv, flag):
         # harness: the process dies.  The harness recorded the operation it was running.
         crash = re.search(r"^(panic: .*|fatal error: .*)$", out, re.M)
         infl = os.path.join(workdir, "inflight.txt")
-        if crash and os.path.exists(infl):
-            where = [l.strip() for l in out.splitlines() if "/knx-go/knx" in l or "/repo/knx" in l][:4]
+        where = [l.strip() for l in out.splitlines() if "/knx-go/knx" in l or "/repo/knx" in l][:4]
+        if crash and (os.path.exists(infl) or where):
             return dict(ops=0, distinct=0, classes={"process-crash": 1}, generated={}, samples=[],
-                        findings=[dict(property=P.id, kind="process-crash", op=open(infl).read(),
+                        findings=[dict(property=P.id, kind="process-crash",
+                                       op=(open(infl).read() if os.path.exists(infl) else "<operation not recorded> " + " ".join(cmd[1:4])),
                                        detail="the library brought the process down: %s %s" % (crash.group(1), " | ".join(where)))]), [], 0
         raise InfraError("harness failed (rc=%s): %s\n%s" % (rc, " ".join(cmd), out[-3000:]))
     stats = json.load(open(sp))
